@@ -61,14 +61,42 @@ type Scenario struct {
 	PCancel  float64         `json:"pcancel"`  // random mode: probability of a cancellation move
 	CancelOK []string        `json:"cancelok"` // which cancellations random mode may use: ctx, rep, cli
 	Oracle   bool            `json:"oracle"`   // compute the fresh-Config oracle at every idle monitor
+	PtrY     bool            `json:"ptry"`     // leaf y lives behind a user pointer (HCfg.L.Z) and sources hand it over as *HLim
 }
 
 // HCfg is the config type of every kernel scenario.
 type HCfg struct {
 	X int
 	Y int
+	L *HLim // second home of leaf y (Scenario.PtrY): a user-declared pointer to a struct, given by sources with the same type
 	T time.Time
 }
+
+type HLim struct{ Z int }
+
+func (c *HCfg) y() int {
+	if c.L != nil {
+		return c.L.Z
+	}
+	return c.Y
+}
+
+func mkDef(v ValSpec, ptrY bool) *HCfg {
+	if ptrY && v.Y != 0 {
+		return &HCfg{X: v.X, L: &HLim{Z: v.Y}}
+	}
+	return &HCfg{X: v.X, Y: v.Y}
+}
+
+var ptrYNow atomic.Bool
+
+// the layer type used when y travels as *HLim: what a hand-written source would return
+var ptrYLayer = reflect.StructOf([]reflect.StructField{
+	{Name: "X", Type: reflect.TypeOf((*int)(nil))},
+	{Name: "Y", Type: reflect.TypeOf((*int)(nil))},
+	{Name: "L", Type: reflect.TypeOf((*HLim)(nil))},
+	{Name: "T", Type: reflect.TypeOf((*time.Time)(nil))},
+})
 
 var curSched atomic.Pointer[Sched]
 var inOracle atomic.Bool
@@ -77,12 +105,12 @@ func bad(v int) bool { return v%10 == 9 }
 
 // Verify fails when a leaf holds a "bad" value; every call is recorded.
 func (c *HCfg) Verify() error {
-	ok := !bad(c.X) && !bad(c.Y)
+	ok := !bad(c.X) && !bad(c.y())
 	if s := curSched.Load(); s != nil && !inOracle.Load() {
-		s.Note("?", "verify", "x", c.X, "y", c.Y, "ok", ok)
+		s.Note("?", "verify", "x", c.X, "y", c.y(), "ok", ok)
 	}
 	if !ok {
-		return fmt.Errorf("verify-bad x=%d y=%d", c.X, c.Y)
+		return fmt.Errorf("verify-bad x=%d y=%d", c.X, c.y())
 	}
 	return nil
 }
@@ -96,9 +124,14 @@ func mkVal(t reflect.Type, v ValSpec) reflect.Value {
 		ut := reflect.StructOf([]reflect.StructField{
 			{Name: "X", Type: reflect.TypeOf((*int)(nil))},
 			{Name: "Y", Type: reflect.TypeOf((*int)(nil))},
+			{Name: "L", Type: reflect.TypeOf((*HLim)(nil))},
 			{Name: "T", Type: reflect.TypeOf(unstackT{})},
 		})
 		return reflect.New(ut).Elem()
+	}
+	ptrY := ptrYNow.Load()
+	if ptrY {
+		t = ptrYLayer
 	}
 	out := reflect.New(t).Elem()
 	if v.X != 0 {
@@ -106,8 +139,12 @@ func mkVal(t reflect.Type, v ValSpec) reflect.Value {
 		out.FieldByName("X").Set(reflect.ValueOf(&x))
 	}
 	if v.Y != 0 {
-		y := v.Y
-		out.FieldByName("Y").Set(reflect.ValueOf(&y))
+		if ptrY {
+			out.FieldByName("L").Set(reflect.ValueOf(&HLim{Z: v.Y}))
+		} else {
+			y := v.Y
+			out.FieldByName("Y").Set(reflect.ValueOf(&y))
+		}
 	}
 	return out
 }
@@ -234,7 +271,7 @@ func (k *kernel) cfgFields(prefix string, c *HCfg, m map[string]any) {
 	}
 	m[prefix] = id
 	m[prefix+"x"] = c.X
-	m[prefix+"y"] = c.Y
+	m[prefix+"y"] = c.y()
 }
 
 // rewrite turns raw hook arguments into loggable fields (under s.mu).
@@ -723,7 +760,7 @@ func (k *kernel) oracle() {
 	k.oracleAt = k.s.parked["mon"]
 	inOracle.Store(true)
 	defer inOracle.Store(false)
-	def := &HCfg{X: k.sc.Def.X, Y: k.sc.Def.Y}
+	def := mkDef(k.sc.Def, k.sc.PtrY)
 	var srcs []dials.Source
 	k.s.mu.Lock()
 	skip := k.skipNow
@@ -738,7 +775,7 @@ func (k *kernel) oracle() {
 		return
 	}
 	c := d.View()
-	k.s.Note("oracle", "fresh", "ok", true, "x", c.X, "y", c.Y, "res", "nil")
+	k.s.Note("oracle", "fresh", "ok", true, "x", c.X, "y", c.y(), "res", "nil")
 }
 
 type valDecoder struct{ v ValSpec }
@@ -852,7 +889,8 @@ func runKernelScenario(sc Scenario, out *bufio.Writer) {
 	if sc.OnErr {
 		p.OnWatchedError = k.onErr
 	}
-	def := &HCfg{X: sc.Def.X, Y: sc.Def.Y}
+	ptrYNow.Store(sc.PtrY)
+	def := mkDef(sc.Def, sc.PtrY)
 	if gated && len(srcs) > 0 {
 		s.running += 2 // monitor and callback goroutine park at their first gate
 	}
